@@ -235,7 +235,12 @@ class Env:
         d.db.targets = lambda: list(self.db_targets)
         self.next_run = [1]
 
+        self.fail_next_db = False
+
         def nxt():
+            if self.fail_next_db:
+                self.fail_next_db = False
+                raise RuntimeError('injected database fault in db.next()')
             v = self.next_run[0]
             self.next_run[0] += 1
             return v
